@@ -60,6 +60,13 @@ func (ex *Exec) doCall(fr *Frame, instr ssa.CallInstruction, c *ssa.CallCommon, 
 		}
 		id := fnID(callee)
 		fc := ex.g.cs.Funcs[id]
+		if fc != nil && fc.CallsArg > 0 && fc.CallsArg-1 < len(args) {
+			// trusted "calls its argument once" model (e.g. a cache running its loader)
+			if cb := args[fc.CallsArg-1]; cb.Clo != nil && cb.Clo.Fn.Blocks != nil {
+				ex.assumed[fmt.Sprintf("%s behaves as one call of its function argument and returns its results (%s)", shortID(id), fc.TrustWhy)] = true
+				return ex.inlineCall(fr, instr, cb.Clo.Fn, cb.Clo, &ssa.CallCommon{}, nil, pc, st)
+			}
+		}
 		if fc != nil && !fc.Inline && (len(fc.Ensures) > 0 || len(fc.Requires) > 0 || fc.Pure || fc.Trusted) {
 			return ex.callContract(fr, instr, callee, fc, c, args, pc, st, resT)
 		}
@@ -195,7 +202,9 @@ func (ex *Exec) havocCall(fr *Frame, instr ssa.CallInstruction, c *ssa.CallCommo
 	if len(keys) > 0 {
 		ex.vc.note(fmt.Sprintf("call %s: havoc of %d heap keys by inferred frame", name, len(keys)))
 	}
+	before := st
 	st = ex.havocKeys(st, keys, name)
+	ex.preserveLocals(fr, pc, before, st, keys)
 	var res Term
 	if resT != nil {
 		if tt, ok := resT.(*types.Tuple); ok {
@@ -286,6 +295,7 @@ func (ex *Exec) callContract(fr *Frame, instr ssa.CallInstruction, callee *ssa.F
 	if !fc.Pure {
 		keys := ex.g.siteFrame(instr)
 		st = ex.havocKeys(st, keys, short)
+		ex.preserveLocals(fr, pc, pre, st, keys)
 	}
 	var res Term
 	var results []Term
